@@ -331,6 +331,9 @@ func findResultKeys(r resultList) ([]key, error) {
 		case resultSingle:
 			keys = append(keys, key{t: innerResult.Type, name: innerResult.Name})
 		case resultGrouped:
+			if innerResult.Flatten {
+				return nil, newErrInvalidInput("cannot use flatten in a decorator: a decorated value group is always returned as the entire group", nil)
+			}
 			if innerResult.Type.Kind() != reflect.Slice {
 				return nil, newErrInvalidInput("decorating a value group requires decorating the entire value group, not a single value", nil)
 			}
